@@ -16,6 +16,8 @@ class Scen(CompScenario):
         self.dut = Semaphore(self.max)
         self.top.add("dut", self.dut)
         self.caller("acquire", self.dut.acquire)
+        if self.cfg.get("twin"):
+            self.twin("acquire", self.dut.acquire)  # two units taking permits through one acquire method
         self.caller("release", self.dut.release)
         self.caller("clear", self.dut.clear)
         self.add_obs("count", self.dut.count)
@@ -40,14 +42,15 @@ class Scen(CompScenario):
             pa = 0.5  # ... and at the lower one
         if pc > 0 and self.count in (0, self.max):
             pc = min(1.0, pc * 2)  # flush placement bias: right after the boundary was reached
-        return {
+        return self.twin_stim(rng, {
             "acquire.en": int(rng.random() < pa),
             "release.en": int(rng.random() < pr),
             "clear.en": int(rng.random() < pc),
-        }
+        })
 
     # ---- oracle -----------------------------------------------------------------------------
     def check(self, cyc, stim, obs):
+        stim, obs = self.fold_twins(stim, obs)
         cnt, mx = self.count, self.max
         self.expect(obs["count"] == cnt, "count-mismatch",
                     f"count signal {obs['count']}, acquisitions-releases since last clear = {cnt} (max {mx})", port="count")
@@ -122,7 +125,7 @@ class Prop(PropBase):
         mx = rng.choice([1, 2, 3, 4, 5, 6, 7, 8, 9] + ([10, 15, 16, 17] if big else []))
         cycles = rng.randint(80, 400 if big else 260)
         kinds = ["random", "random", "fill", "drain", "pingpong", "flush", "flush", "idle"]
-        return {"max_count": mx, "cycles": cycles, "sched": rng.choice(["eager", "eager", "rr"]),
+        return {"max_count": mx, "cycles": cycles, "twin": int(rng.random() < 0.3), "sched": rng.choice(["eager", "eager", "rr"]),
                 "plan": make_plan(rng, cycles, kinds, min_len=4, max_len=30)}
 
     def make(self, cfg):
@@ -132,7 +135,7 @@ class Prop(PropBase):
         return {"port": (viol.get("info") or {}).get("port")}
 
     def cfg_signature(self, cfg):
-        return [cfg["max_count"], cfg["sched"]]
+        return [cfg["max_count"], cfg["sched"], cfg.get("twin", 0)]
 
     def shrink_cfg(self, cfg):
         for d in (1, 2, cfg["max_count"] // 2, cfg["max_count"] - 1):
